@@ -6,8 +6,9 @@ CONSTANTS Producers = {"p1", "p2"}
           SafeEnv = TRUE
           Locks = TRUE
           RealTime = FALSE
+          Disconnect = TRUE
           NMsgs = 2
-          ScriptSet = {"quit", "reset", "dtor", "cycle"}
+          ScriptSet = {"quit", "reset", "dtor", "cycle", "dtorquit", "dtorspin", "cyclequit"}
           Script2Set = {"none"}
 INVARIANT TypeOK
 INVARIANT MutualExclusion
